@@ -200,6 +200,7 @@ func facts() map[string]any {
 		}
 		segmentLocks = lockFields(et)
 	}
+	sampled := limiterSampledEvictions()
 	depth, defers := setWithCapShape()
 	return map[string]any{
 		"grow_pairs":                        growPairs,
@@ -216,6 +217,10 @@ func facts() map[string]any {
 		"cache_wrappers_touching_internals": cacheWrappersTouchingInternals(),
 		"cache_delegations":                 cacheDelegations(),
 		"limiter_cleanup_locks":             limiterCleanupLocks(),
+		"limiter_sampled_evictions":         sampled[0],
+		"limiter_sampled_victim_not_stored": sampled[1],
+		"limiter_sampled_no_victim":         sampled[2],
+		"limiter_sampled_own_key":           sampled[3],
 		"expiry_cleanup_not_conditional":    expiryCleanupNotConditional(),
 		"len_functions_touching_locks":      lenFunctionsTouchingLocks(),
 		"segmap_trylocks":                   tryLocks(),
@@ -500,4 +505,58 @@ func expiryCleanupNotConditional() []string {
 		}
 	}
 	return bad
+}
+
+// limiterSampledEvictions runs the real store ABOVE 1000 entries, where
+// evictOne takes the first key Go's map iteration yields, and observes every
+// eviction of a few thousand fresh inserts (several store sizes): returns
+// [evictions observed, victims that were NOT a stored key, full-store inserts
+// that evicted nothing, evictions of the key being inserted]. The model's
+// only hypothesis on that path is "the iteration's first key is a stored key".
+func limiterSampledEvictions() []int {
+	out := []int{0, 0, 0, 0}
+	next := uint64(1)
+	for _, mx := range []int{1001, 1100, 1500, 2500} {
+		s := ratelimit.NewLimiterStore(mx, 10)
+		for i := 0; i < mx; i++ {
+			s.Get(next)
+			next += 0x9E3779B97F4A7C15
+		}
+		for i := 0; i < 1500; i++ {
+			before := map[uint64]bool{}
+			for _, k := range ratelimit.VerifLimiterKeys(s) {
+				before[k] = true
+			}
+			k := next
+			next += 0x9E3779B97F4A7C15
+			s.Get(k)
+			after := map[uint64]bool{}
+			for _, x := range ratelimit.VerifLimiterKeys(s) {
+				after[x] = true
+			}
+			gone := 0
+			for x := range before {
+				if !after[x] {
+					gone++
+				}
+			}
+			switch {
+			case !after[k]:
+				out[3]++
+			case gone == 0:
+				out[2]++
+			default:
+				out[0] += gone
+			}
+			for x := range after {
+				if x != k && !before[x] {
+					out[1]++ // something appeared that was neither stored nor inserted
+				}
+			}
+			if len(after) != len(before)-gone+1 {
+				out[1]++
+			}
+		}
+	}
+	return out
 }
